@@ -1117,7 +1117,7 @@ def proj_html(it, page):
                     rs = int(com[0].attrs.get('rowspan', '0'))
                 except ValueError:
                     rs = -1
-                words = it.codes(com[0].text().split()[:-1])
+                words = it.codes(com[0].text().split())
             recs.append(line_rec('i', w=words, op=opcode(it, ' '.join(ins[0].text().split())), addr=a, rs=rs))
     return recs
 
